@@ -21,10 +21,10 @@ vlib.standard_check({
     "exe": "gv_c08",
     "harness": "c03",
     "streams": {
-        "quick": [[8000, "conc", 9], [2500, "concw", 9], [2500, "seq", 7], [3000, "op", 6]],
-        "thorough": [[120000, "conc", 12], [30000, "concw", 12], [40000, "seq", 9], [50000, "op", 8]],
+        "quick": [[8000, "conc", 9], [2500, "concw", 9], [2500, "seq", 7], [3000, "mem"], [3000, "op", 6]],
+        "thorough": [[120000, "conc", 12], [30000, "concw", 12], [40000, "seq", 9], [60000, "mem"], [50000, "op", 8]],
     },
-    "search": [[20000, "conc", 12], [5000, "concw", 12], [5000, "seq", 9]],
+    "search": [[20000, "conc", 12], [5000, "concw", 12], [5000, "seq", 9], [20000, "mem"]],
     "signature": signature,
     "eval_key": "ops",
     "nontrivial": lambda t: t.get("conc_pairs", 0),
@@ -34,17 +34,25 @@ vlib.standard_check({
             "(a defined abstract bit contradicted = PROPFAIL, reported at the node where it originates). Stream seq: the same with registers "
             "(with/without reset value and enable, feedback) over 6 clock cycles, concretising also the undefined initial register contents; register "
             "outputs are taken from the implementation, all combinational nodes are still recomputed by the model. "
-            "Non-trivial = (abstract, concretisation) run pairs (per cycle in seq).",
+            "Stream mem: two memories of the same shape (2..16 words incl. non powers of two, widths 1..70, EXACT or default undefined-address behaviour, "
+            "half of the designs post-processed) share their read address pins, the second holds a concretisation of the partly undefined power-on contents of "
+            "the first; every abstract address (0..3 undefined bits) is followed by all its concretisations; every read is recomputed by memRead and the "
+            "abstract read data is compared with the read data of every concretisation (address, contents, both). "
+            "Non-trivial = (abstract, concretisation) run pairs (per cycle in seq, per read in mem).",
     "extra_cov": lambda t: {"node_kinds": t.get("node_kinds", {}), "operators": t.get("hist", {}), "bits_compared": t.get("compat_bits", 0),
                             "non_monotone_occurrences": t.get("non_monotone", 0), "non_monotone_where": t.get("non_monotone_where", {}),
-                            "non_monotone_sources": t.get("non_monotone_sources", {})},
+                            "non_monotone_sources": t.get("non_monotone_sources", {}), "memory_reads": t.get("mem_reads", {})},
     "trusted_base": ["Lean 4.33 kernel", "axioms: propext, Classical.choice, Quot.sound only (audited per theorem)",
                      "statement of ⊑ / compat in Nodes/Bits.lean", "harness/c03.cpp netlist dump + Driver/Nodes*.lean line protocol (correspondence on generated cases, not proved)"],
-    "level_text": "Lean theorems: every modelled core node maps compatible inputs to compatible outputs (all kinds but the multiplexer are monotone in the "
-                  "refinement order; the multiplexer is proved compatible and monotone for in-range selectors), lifted by induction to combinational netlists; "
-                  "corollary: a bit defined in the abstract run equals the bit of every concretisation. Model tied to the code by node-level differential "
-                  "execution; the property is additionally checked directly on the implementation (abstract vs concretised runs of the same compiled program).",
-    "assumptions": ["theorems cover combinational netlists; registers are covered by the implementation-level check of stream seq only (no Lean model of "
-                    "Node_Register here, see C04), memories and tristate pins are not covered",
+    "level_text": "Lean theorems: every modelled core node (Logic, Arithmetic, Compare, Shift, Rewire, Multiplexer, PriorityConditional, Constant) is monotone "
+                  "in the refinement order, lifted by induction to every combinational netlist; corollaries: a bit defined in the abstract run keeps its value "
+                  "in every concretisation (defined_bit_persists / defined_never_wrong), constant folding of fully defined abstract results is sound. Model tied "
+                  "to the code by node-level differential execution; the property is additionally checked directly on the implementation (abstract vs "
+                  "concretised runs of the same compiled program, combinational and with registers over 6 cycles).",
+    "assumptions": ["theorems cover combinational netlists and asynchronous memory reads; registers are covered by the implementation-level check of stream seq "
+                    "only (no Lean model of Node_Register here, see C04); forwarding of pending writes into a read of the same cycle (Node_MemPort.cpp:244-279), "
+                    "memory write ports and tristate pins are not covered",
+                    "Node_MemPort asserts (InternalError) on an EXACT read whose partially undefined address has its smallest candidate beyond the memory; modelled as a "
+                    "guard (memReadThrows), generated rarely, throw <-> guard is checked",
                     "nodes outside the model (External, vendor primitives, SignalGenerator callbacks)"],
 })
